@@ -8,6 +8,7 @@ CONSTANTS
   Fmts = {"bc", "idx_bc"}
   NFiles = {2}
   Lazy = {FALSE}
+  Touches = {"lookup", "getitem"}
   Variant = "design"
 INVARIANT TypeOK
 INVARIANT Inv_C03_Nearest
